@@ -19,6 +19,7 @@ func main() {
 	only := flag.String("only", "", "print only this obligation id")
 	dump := flag.String("dump", "", "debug: pkg:func — print the paths of a function")
 	warm := flag.Bool("warm", false, "load everything once (warms the go build cache)")
+	selftest := flag.String("selftest", "", "run the mutant catalogue of a property (or 'all') against the checker, in memory")
 	flag.Parse()
 	if t := os.Getenv("VERIF_TIER"); t != "" && *tier == "" {
 		*tier = t
@@ -30,6 +31,17 @@ func main() {
 			os.Exit(1)
 		}
 		fmt.Printf("warm: %d packages, %d errors\n", len(p.Pkgs), len(p.Errors))
+		return
+	}
+	if *selftest != "" {
+		res := rules.SelfTest(*selftest, true)
+		fmt.Printf("selftest %s: %d mutants, %d killed, %d survived, %d stale\n", *selftest, res.Total, res.Killed, len(res.Survived), len(res.Stale))
+		for _, s := range res.Stale {
+			fmt.Println("  stale:", s)
+		}
+		if len(res.Survived) > 0 {
+			os.Exit(1)
+		}
 		return
 	}
 	if *dump != "" {
